@@ -8,6 +8,7 @@ import (
 	"github.com/csgura/fp/as"
 	"github.com/csgura/fp/genfp"
 	"github.com/csgura/fp/hlist"
+	"github.com/csgura/fp/internal/verifhook"
 	"github.com/csgura/fp/iterator"
 	"github.com/csgura/fp/product"
 	"github.com/csgura/fp/promise"
@@ -18,6 +19,9 @@ import (
 type goExecutor struct{}
 
 func (r goExecutor) ExecuteUnsafe(runnable fp.Runnable) {
+	if verifhook.Spawn(runnable.Run) {
+		return
+	}
 	go runnable.Run()
 }
 
